@@ -579,6 +579,13 @@ def run_c13(ctx, spec, out):
                 v.stats["idle_refreshes_judged"] = v.stats.get("idle_refreshes_judged", 0) + 1
             # "the first query after idling triggers a refresh before it is answered": the backend is asked, the idle mode ends
             if l.get("op") == "state" and prev_line is not None and prev_line.get("op") == "query" and prev_line.get("text", "").startswith("GET hosts") \
+                    and prev_st is not None and prev_st.get("idling") and st.get("idling"):
+                # whatever state the backend is in: a client asked for it, the idle mode is over (the update loop is back at
+                # the normal interval, so a backend that is down is tried again soon)
+                v.violations.append(("property", case, "step id %d: a client query reached an idling backend (status %s) and the backend is still idling afterwards: it stays at the idle interval although clients ask for it"
+                                     % (l["id"], prev_st.get("status"))))
+                break
+            if l.get("op") == "state" and prev_line is not None and prev_line.get("op") == "query" and prev_line.get("text", "").startswith("GET hosts") \
                     and prev_st is not None and prev_st.get("idling") and prev_st.get("status") == 0 and prev_st.get("has_data") \
                     and a.get("backend_queries") is not None and prev_bq is not None:
                 # a backend that refuses the connection receives nothing: the attempt then shows in the error bookkeeping
@@ -838,7 +845,11 @@ def mutate_object(rng, schema, flags, table, row, now, kinds=None):
             ch = {"acknowledged": 1 - int(row.get("acknowledged", 0) or 0)}
     if "HasLastUpdateColumn" in flags:
         ch["last_update"] = now
+    if "HasLMDLastCacheUpdateColumn" in flags:
+        ch["lmd_last_cache_update"] = now
     cols = {c["name"] for c in worldgen.table_columns(schema, table, flags)}
+    if "HasLMDLastCacheUpdateColumn" in flags:
+        cols.add("lmd_last_cache_update")
     return kind, {k: v for k, v in ch.items() if k in cols}
 
 
@@ -851,7 +862,9 @@ def run_c03(ctx, spec, out):
     spec_lines, spec_pairs = [], []
     nid = 0
     for _ in range(nh):
-        flav = rng.choice([None, None, ("naemon", ["Naemon", "HasLastUpdateColumn"]), ("naemon", ["Naemon"]), ("plain", []), ("shinken", ["Shinken"])])
+        # (an lmd in front of a core offers lmd_last_cache_update, with or without the core's own last_update behind it)
+        flav = rng.choice([None, None, ("naemon", ["Naemon", "HasLastUpdateColumn"]), ("naemon", ["Naemon"]), ("plain", []), ("shinken", ["Shinken"]),
+                           ("naemon", ["Naemon", "HasLastUpdateColumn", "HasLMDLastCacheUpdateColumn"]), ("naemon", ["Naemon", "HasLMDLastCacheUpdateColumn"])])
         wb, flags = small_world(rng, schema, {"nhosts": [1, 2, 4, 6], "flavour": flav})
         # give every object a plausible last_check in the past
         now = T0
@@ -861,6 +874,8 @@ def run_c03(ctx, spec, out):
                 r["last_check"] = T0 - rng.choice([500, 200, 100, 50]) if rng.random() < 0.75 else 0     # 0 = never checked
                 if "last_update" in r:
                     r["last_update"] = r["last_check"]
+                if "lmd_last_cache_update" in r:
+                    r["lmd_last_cache_update"] = r["last_check"]
                 r["is_executing"] = 0
                 if "modified_attributes_list" in r:
                     r["modified_attributes_list"] = modattr_list(int(r.get("modified_attributes", 0) or 0))
